@@ -461,6 +461,144 @@ theorem absLoop_complete (sp : StreamSpec) (hn : sp.n < 256) (ht : sp.t.toNat = 
             · exact Or.inl h
           · exact Or.inr (List.mem_cons_of_mem _ h)
 
+/-- the general form: either the loop left early in a complete state made of chunks of this stream,
+or it ran to the terminator having seen every chunk of the stream (and the frame header iff there was one) -/
+theorem absLoop_inv (sp : StreamSpec) (hn : sp.n < 256) (ht : sp.t.toNat = 0xc0 ∨ sp.t.toNat = 0xc2)
+    (hh : sp.h < 65536) (hw : sp.w < 65536) :
+    ∀ (evs : List Ev) (st : St) (S : List Nat) (b : Bool),
+      Inv sp S b st →
+      (∀ it, Ev.plain it ∈ evs → it.plain) →
+      (chunkNos evs ++ S).Nodup →
+      (∀ k ∈ chunkNos evs, 1 ≤ k ∧ k ≤ sp.n) →
+      sofCount evs ≤ (if b then 0 else 1) →
+      (∃ S', Inv sp S' true (absLoop (evs.map (Ev.item sp)) st) ∧ S'.length = sp.n ∧ ∀ k ∈ S', k ∈ chunkNos evs ∨ k ∈ S) ∨
+      Inv sp ((chunkNos evs).reverse ++ S) (b || decide (0 < sofCount evs)) (absLoop (evs.map (Ev.item sp)) st) := by
+  intro evs
+  induction evs with
+  | nil =>
+    intro st S b hi _ _ _ _
+    right
+    simpa [chunkNos, sofCount, absLoop] using hi
+  | cons ev evs ih =>
+    intro st S b hi hpl hnd hrg hsof
+    cases ev with
+    | plain it =>
+      have hp : it.plain := hpl it List.mem_cons_self
+      simp only [List.map_cons, Ev.item, absLoop, applySeg_plain st it hp, Bool.false_eq_true, if_false]
+      have := ih st S b hi (fun x hx => hpl x (List.mem_cons_of_mem _ hx)) (by simpa [chunkNos] using hnd)
+        (by simpa [chunkNos] using hrg) (by simpa [sofCount] using hsof)
+      simp only [chunkNos, sofCount]
+      exact this
+    | sof =>
+      have hb : b = false := by
+        cases b with
+        | false => rfl
+        | true => simp [sofCount] at hsof
+      subst hb
+      have hsof' : sofCount evs = 0 := by simp [sofCount] at hsof; omega
+      obtain ⟨st', hap, hi'⟩ := applySeg_sofEv sp ht hh hw S st hi
+      have ht' : (sofItem sp.t sp.prec sp.h sp.w sp.tail).t = sp.t := rfl
+      simp only [List.map_cons, Ev.item, absLoop, ht', hap]
+      by_cases hstop : st'.allExtracted = true
+      · simp only [hstop, if_true]
+        left
+        exact ⟨S, hi', (length_of_allExtracted sp.n sp.P S st' hi'.seen hstop).1, fun k hk => Or.inr hk⟩
+      · simp only [hstop, Bool.false_eq_true, if_false]
+        have := ih st' S true hi' (fun x hx => hpl x (List.mem_cons_of_mem _ hx)) (by simpa [chunkNos] using hnd)
+          (by simpa [chunkNos] using hrg) (by simp [hsof'])
+        simp only [chunkNos, sofCount, hsof', Nat.zero_add, Nat.lt_irrefl, decide_false, Bool.or_false, Bool.false_or,
+          Nat.lt_add_one, decide_true] at this ⊢
+        exact this
+    | chunk k =>
+      have hnd0 : (k :: (chunkNos evs ++ S)).Nodup := by simpa [chunkNos] using hnd
+      have hnew : k ∉ S := fun hm => (List.nodup_cons.mp hnd0).1 (List.mem_append_right _ hm)
+      have hk : 1 ≤ k ∧ k ≤ sp.n := hrg k (by simp [chunkNos])
+      obtain ⟨hap, hi'⟩ := applySeg_chunk sp hn S b st k hi hk.1 hk.2 hnew
+      simp only [List.map_cons, Ev.item, absLoop, hap]
+      by_cases hstop : (iccChunk st (mkChunk sp.n k (sp.P k))).allExtracted = true
+      · simp only [hstop, if_true]
+        have hl := length_of_allExtracted sp.n sp.P (k :: S) _ hi'.seen hstop
+        have hb : b = true := by rw [← hi'.ext]; exact hl.2
+        subst hb
+        left
+        refine ⟨k :: S, hi', hl.1, ?_⟩
+        intro x hx
+        rcases List.mem_cons.mp hx with rfl | hx
+        · left; simp [chunkNos]
+        · right; exact hx
+      · simp only [hstop, Bool.false_eq_true, if_false]
+        have := ih _ (k :: S) b hi' (fun x hx => hpl x (List.mem_cons_of_mem _ hx))
+          ((List.perm_middle.nodup_iff).mpr hnd0) (fun x hx => hrg x (by simp [chunkNos, hx])) (by simpa [sofCount] using hsof)
+        rcases this with ⟨S', h1, h2, h3⟩ | h
+        · left
+          refine ⟨S', h1, h2, ?_⟩
+          intro x hx
+          rcases h3 x hx with h | h
+          · left; simp [chunkNos, h]
+          · rcases List.mem_cons.mp h with rfl | h
+            · left; simp [chunkNos]
+            · right; exact h
+        · right
+          simp only [chunkNos, sofCount, List.reverse_cons, List.append_assoc, List.singleton_append]
+          exact h
+
+/-- **C06 (JPEG, a chunk is missing).** If the stream carries some but not all of the `n` chunks (in any
+order, among any other segments, with the frame header anywhere), the profile is reported as an error
+— never as the bytes that did arrive. -/
+theorem C06_jpeg_stream_incomplete (zl : Inflate) (e : IOErr) (sp : StreamSpec) (hn : sp.n < 256)
+    (ht : sp.t.toNat = 0xc0 ∨ sp.t.toNat = 0xc2) (hh : sp.h < 65536) (hw : sp.w < 65536)
+    (evs : List Ev) (hok : ∀ ev ∈ evs, (ev.item sp).ok) (hpl : ∀ it, Ev.plain it ∈ evs → it.plain)
+    (hnd : (chunkNos evs).Nodup) (hrg : ∀ k ∈ chunkNos evs, 1 ≤ k ∧ k ≤ sp.n) (hsome : chunkNos evs ≠ [])
+    (k0 : Nat) (hk0 : 1 ≤ k0 ∧ k0 ≤ sp.n) (hmiss : k0 ∉ chunkNos evs) (hsof : sofCount evs = 1)
+    (tb rest : List UInt8) (htb : termOk tb) :
+    (run3 zl (extract (evs.length + 1)).run
+      (markerBytes 0xd8 ++ ((evs.map (Ev.item sp)).flatMap Item.bytes ++ (tb ++ rest))) e).1 =
+    .ok { md1 sp with icc := .err "incomplete ICC profile data" } := by
+  have h1 := extract_items zl e tb rest htb (evs.map (Ev.item sp)) (by
+    intro it hit
+    obtain ⟨ev, hev, rfl⟩ := List.mem_map.mp hit
+    exact hok ev hev)
+  rw [List.length_map] at h1
+  rw [h1]
+  have hinv := absLoop_inv sp hn ht hh hw evs {} [] false (inv_init sp) hpl (by simpa using hnd) hrg (by simp [hsof])
+  -- a nodup list inside 1..n that misses k0 has fewer than n elements
+  have hshort : ∀ S' : List Nat, S'.Nodup → (∀ k ∈ S', k ∈ chunkNos evs) → S'.length < sp.n := by
+    intro S' hnd' hsub
+    have hnd2 : (k0 :: S').Nodup := List.nodup_cons.mpr ⟨fun hm => hmiss (hsub k0 hm), hnd'⟩
+    have hsub2 : (k0 :: S') ⊆ List.range' 1 sp.n := by
+      intro a ha
+      rw [List.mem_range'_1]
+      rcases List.mem_cons.mp ha with rfl | ha
+      · omega
+      · have := hrg a (hsub a ha); omega
+    have := hnd2.length_le_of_subset hsub2
+    simp only [List.length_cons, List.length_range'] at this
+    omega
+  rcases hinv with ⟨S', hi, hl, hsub⟩ | hi
+  · exfalso
+    have := hshort S' hi.nodup (fun k hk => by rcases hsub k hk with h | h; exact h; simp at h)
+    omega
+  · simp only [List.append_nil, Bool.false_or, hsof] at hi
+    have hext : (absLoop (evs.map (Ev.item sp)) {}).extracted = true := by rw [hi.ext]; decide
+    have hlt := hshort (chunkNos evs).reverse ((List.reverse_perm _).nodup_iff.mpr hnd) (fun k hk => List.mem_reverse.mp hk)
+    have hne : (chunkNos evs).reverse ≠ [] := by simpa using hsome
+    have hch : ∃ cs, (absLoop (evs.map (Ev.item sp)) {}).chunks = some cs := by
+      cases hc : (absLoop (evs.map (Ev.item sp)) {}).chunks with
+      | none => exact absurd (hi.seen.shape hc) hne
+      | some cs => exact ⟨cs, rfl⟩
+    obtain ⟨cs, hcs⟩ := hch
+    have hlen : cs.length = sp.n := by
+      have := hi.seen.len
+      simpa [slots, hcs] using this
+    have hcnt := hi.seen.count
+    rw [List.length_reverse] at hcnt hlt
+    unfold finish
+    have hneq : (cs.length != (absLoop (evs.map (Ev.item sp)) {}).count) = true := by
+      rw [hcnt, hlen]; simp; omega
+    simp only [hext, Bool.not_true, Bool.false_eq_true, if_false, hi.seen.noErr, hcs, Option.getD_some, hneq, if_true]
+    rw [hi.md]
+    rfl
+
 /-- the profile: the payloads in chunk order -/
 def StreamSpec.profile (sp : StreamSpec) : List UInt8 := (List.range sp.n).flatMap fun j => sp.P (j + 1)
 
